@@ -149,6 +149,13 @@ func (st *State) assume(t *Term) {
 	}
 }
 
+// assumeDef assumes a definitional fact about a fresh array (always satisfiable); such facts
+// are left out of the satisfiability (cover) checks, where quantifiers only slow the solver.
+func (st *State) assumeDef(x *Exec, t *Term) {
+	x.defFacts[t] = true
+	st.assume(t)
+}
+
 func (st *State) fork() *State {
 	n := &State{heaps: make(map[string]*Term, len(st.heaps)), dirty: make(map[string]bool, len(st.dirty)),
 		pc: append([]*Term(nil), st.pc...), pcset: make(map[*Term]bool, len(st.pcset)),
@@ -215,6 +222,8 @@ type Exec struct {
 	globalsSeen     map[string]*Term
 	epoch           int
 	usePow2         bool
+	defFacts        map[*Term]bool
+	entry           map[string]Value
 	qn              int
 	usedSpecFns     map[string]bool
 
@@ -233,7 +242,7 @@ func NewExec(prog *Program, db *ContractDB, fn *ssa.Function, c *Contract, cfg s
 		typeIDs: map[string]int64{}, typeByID: map[int64]types.Type{}, loopCache: map[*ssa.Function][]*Loop{},
 		ordCache: map[*ssa.Function]map[ssa.Instruction]string{}, callOrd: map[*ssa.Function]map[ssa.Instruction]callName{},
 		maxPaths: 4096, trusted: map[string]bool{}, havocked: map[string]bool{}, inlined: map[string]bool{}, notes: map[string]bool{},
-		unrollBudget: 300, cfgVals: map[string]int64{}, globalsSeen: map[string]*Term{}, useBitAxioms: map[string]bool{}, usedSpecFns: map[string]bool{}}
+		unrollBudget: 300, cfgVals: map[string]int64{}, globalsSeen: map[string]*Term{}, useBitAxioms: map[string]bool{}, usedSpecFns: map[string]bool{}, defFacts: map[*Term]bool{}}
 	if c != nil && c.Mode == "bits" {
 		x.mode = ModeBits
 	}
@@ -359,16 +368,10 @@ func (x *Exec) oblName(st *State, kind, detail string, instr ssa.Instruction) st
 	return name
 }
 
-var ordSeen = map[*ssa.Function]map[string][]ssa.Instruction{}
 
 func (x *Exec) ordCounter(fn *ssa.Function, base string, instr ssa.Instruction) int {
 	// stable ordinal: position of instr in the list of instructions registered under base,
 	// ordered by (block index, instruction index)
-	m := ordSeen[fn]
-	if m == nil {
-		m = map[string][]ssa.Instruction{}
-		ordSeen[fn] = m
-	}
 	pos := func(in ssa.Instruction) int {
 		b := in.Block()
 		for i, y := range b.Instrs {
@@ -426,7 +429,7 @@ func (x *Exec) addObl(st *State, kind, detail string, instr ssa.Instruction, goa
 		pos = fmt.Sprintf("%s:%d", strings.TrimPrefix(p.Filename, "/repo/"), p.Line)
 	}
 	o := &Obligation{Name: name, Func: x.funcLabel(x.fn), Kind: kind, Assume: append([]*Term(nil), st.pc...), Goal: goal,
-		Bank: x.b, Pos: pos, Info: info}
+		Bank: x.b, Pos: pos, Info: info, X: x}
 	if x.contract != nil {
 		o.Property = x.contract.Properties
 	}
